@@ -31,6 +31,8 @@ pub enum Op {
     Oversize { node: u8, sync: bool, far: bool },
     /// the node's user stops reading its notification handle for this long
     Stall { node: u8, ms: u16 },
+    /// slow consumer: the node's user spends this many microseconds on every notification it receives (0 = full speed again)
+    Throttle { node: u8, us: u16 },
     Close { node: u8 },
     /// the node's probe protocol force-closes the connection
     CutConn { node: u8 },
@@ -65,6 +67,7 @@ fn op_strategy() -> impl Strategy<Value = Op> {
         3 => (node.clone(), any::<bool>(), prop_oneof![Just(4200u16), Just(5200), Just(6500)], 0u8..4).prop_map(|(node, sync, count, size)| Op::Send { node, sync, count, size }),
         2 => (node.clone(), any::<bool>(), any::<bool>()).prop_map(|(node, sync, far)| Op::Oversize { node, sync, far }),
         4 => (node.clone(), prop_oneof![Just(30u16), Just(150), Just(400), Just(800)]).prop_map(|(node, ms)| Op::Stall { node, ms }),
+        2 => (node.clone(), prop_oneof![Just(0u16), Just(15), Just(60), Just(200)]).prop_map(|(node, us)| Op::Throttle { node, us }),
         1 => node.clone().prop_map(|node| Op::Close { node }),
         1 => node.clone().prop_map(|node| Op::CutConn { node }),
         3 => Just(Op::Reopen),
@@ -95,8 +98,8 @@ fn backpressure_strategy() -> impl Strategy<Value = Case> {
     (
         config_strategy(),
         0u8..2,
-        prop_oneof![Just(400u16), Just(800), Just(1200)],
-        prop::collection::vec((any::<bool>(), prop_oneof![Just(4300u16), Just(5200), Just(6500)], 1u8..4), 1..3),
+        prop_oneof![Just(400u16), Just(800), Just(1200), Just(15), Just(40), Just(100)],
+        prop::collection::vec((prop::bool::weighted(0.3), prop_oneof![Just(4300u16), Just(5200), Just(6500)], 1u8..4), 1..3),
         prop::collection::vec(op_strategy(), 0..4),
         prop::collection::vec(op_strategy(), 0..3),
         any::<u64>(),
@@ -104,13 +107,42 @@ fn backpressure_strategy() -> impl Strategy<Value = Case> {
         .prop_map(|((sync_channel, async_channel, max_size), sender, stall, bursts, pre, post, seed)| {
             let mut ops = pre;
             ops.push(Op::Reopen);
-            ops.push(Op::Stall { node: 1 - sender, ms: stall });
+            if stall >= 400 {
+                ops.push(Op::Stall { node: 1 - sender, ms: stall });
+            } else {
+                // a slow consumer instead of a stalled one: it keeps reading, so whatever arrives is delivered
+                ops.push(Op::Throttle { node: 1 - sender, us: stall });
+            }
             for (sync, count, size) in bursts {
+                // behind a slow consumer the sender has to outrun 4096 queue slots plus the stream window before it blocks:
+                // make those bursts about twice as long
+                let count = if stall < 400 { count.saturating_mul(2).min(13_000) } else { count };
                 ops.push(Op::Send { node: sender, sync, count, size });
             }
             ops.extend(post);
             Case { sync_channel, async_channel, max_size, ops, seed }
         })
+}
+
+/// Large notifications (up to exactly the maximum) in bursts of a few hundred to a few thousand towards a reader that keeps
+/// reading: the sender repeatedly exhausts the 256 KiB stream window in the middle of a frame while the receive queue is short,
+/// so whatever a partial write does to the byte stream reaches the user.
+fn window_cycles_strategy() -> impl Strategy<Value = Case> {
+    (
+        prop_oneof![Just(256u16), Just(2048)],
+        prop_oneof![Just(1u8), Just(8)],
+        prop_oneof![Just([1024u16, 1024]), Just([4096u16, 4096])],
+        prop::collection::vec(
+            prop_oneof![
+                6 => (0u8..2, prop::bool::weighted(0.15), prop_oneof![Just(300u16), Just(900), Just(2500)], 3u8..5).prop_map(|(node, sync, count, size)| Op::Send { node, sync, count, size }),
+                1 => (0u8..2, prop_oneof![Just(0u16), Just(15), Just(60)]).prop_map(|(node, us)| Op::Throttle { node, us }),
+                1 => prop_oneof![Just(0u16), Just(20), Just(100)].prop_map(|ms| Op::Sleep { ms }),
+            ],
+            1..5,
+        ),
+        any::<u64>(),
+    )
+        .prop_map(|(sync_channel, async_channel, max_size, ops, seed)| Case { sync_channel, async_channel, max_size, ops, seed })
 }
 
 fn connected(log: &[Obs], node: usize, peer: &PeerId) -> bool {
@@ -214,6 +246,7 @@ fn run_case(c: &Case) -> CaseResult {
     let mut traffic_then_close = false;
     let mut sent_any = false;
     let mut longest_stall = 0u64;
+    let mut throttled = false;
 
     let send = |nodes: &Vec<Node>, next_tag: &mut HashMap<(usize, bool), u64>, n: usize, sync: bool, count: u32, size: usize| {
         let e = next_tag.entry((n, sync)).or_insert(1);
@@ -248,6 +281,13 @@ fn run_case(c: &Case) -> CaseResult {
                 stall_until[n] = Some(std::time::Instant::now() + Duration::from_millis(*ms as u64));
                 longest_stall = longest_stall.max(*ms as u64);
             }
+            Op::Throttle { node, us } => {
+                let n = *node as usize % 2;
+                nodes[n].send(Cmd::NotifThrottle(Duration::from_micros(*us as u64)));
+                if *us > 0 {
+                    throttled = true;
+                }
+            }
             Op::Close { node } => {
                 let n = *node as usize % 2;
                 if sent_any {
@@ -271,6 +311,9 @@ fn run_case(c: &Case) -> CaseResult {
     }
 
     // settle: let stalls expire and queues drain, then send one marker per direction and mode on a stream that is open
+    for n in 0..2usize {
+        nodes[n].send(Cmd::NotifThrottle(Duration::ZERO));
+    }
     let settle_deadline = std::time::Instant::now() + Duration::from_millis(longest_stall + 200);
     while std::time::Instant::now() < settle_deadline && stall_until.iter().flatten().any(|u| *u > std::time::Instant::now()) {
         std::thread::sleep(Duration::from_millis(20));
@@ -315,6 +358,17 @@ fn run_case(c: &Case) -> CaseResult {
     drop(nodes);
     std::thread::sleep(Duration::from_millis(5));
 
+    if std::env::var("C12_DEBUG").is_ok() {
+        for n in 0..2usize {
+            let rec = history.iter().filter(|o| o.node == n && matches!(o.kind, ObsKind::NotifReceived { .. })).count();
+            let ev: Vec<String> = history
+                .iter()
+                .filter(|o| o.node == n && !matches!(o.kind, ObsKind::NotifReceived { .. }))
+                .map(|o| format!("{:?}", o.kind).chars().take(110).collect::<String>())
+                .collect();
+            eprintln!("node {n}: received {rec}; events {ev:?}");
+        }
+    }
     // ---- oracle ----
     let panics = case_panics(case_id);
     if let Some(p) = panics.first() {
@@ -322,6 +376,7 @@ fn run_case(c: &Case) -> CaseResult {
     }
     let mut clog_seen = false;
     let mut delivered_total = 0usize;
+    let mut delivered_bytes = 0usize;
     let mut lost_at_close = 0usize;
     for s in 0..2usize {
         let r = 1 - s;
@@ -391,6 +446,7 @@ fn run_case(c: &Case) -> CaseResult {
                 ensure!(tag >> 56 == s as u64 + 1, "C12/notification-corrupted", "node {r} received tag {tag:#x} that node {s} never sent");
                 received.entry(sync).or_default().push(tag);
                 delivered_total += 1;
+                delivered_bytes += data.len();
             }
         }
         for sync in [false, true] {
@@ -442,14 +498,17 @@ fn run_case(c: &Case) -> CaseResult {
         }
     }
     Ok(CaseOk::trivial()
-        .nt(big_under_stall || clog_seen || oversize_sent || (traffic_then_close && delivered_total > 0))
+        .nt(big_under_stall || clog_seen || oversize_sent || (traffic_then_close && delivered_total > 0) || delivered_bytes > 1 << 20)
         .class_if(big_under_stall, "burst-over-4096-while-receiver-stalled")
+        .class_if(throttled, "slow-consumer")
+        .class_if(throttled && delivered_total > 4200, "slow-consumer-received-more-than-4200")
         .class_if(clog_seen, "sync-send-answered-clogged")
         .class_if(oversize_sent, "oversize-sent-on-open-stream")
         .class_if(traffic_then_close, "close-or-cut-after-traffic")
         .class_if(lost_at_close > 0, "accepted-tail-lost-at-close")
         .class_if(markers_delivered, "final-markers-delivered")
         .class_if(delivered_total > 4096, "more-than-4096-delivered")
+        .class_if(delivered_bytes > 1 << 20, "more-than-1MiB-delivered")
         .class_if(c.max_size[0] != c.max_size[1], "different-maximum-sizes"))
 }
 
@@ -459,7 +518,8 @@ pub fn run(ctx: &mut Ctx) {
         receiver-user stalls of 30..1200 ms, close, connection cut, reopen, sleeps; a second campaign always stalls the receiver and then pushes more than its 4096-slot inbound queue plus the \
         stream window can hold. Payload = tag + filler derived from the tag. Oracle: per (direction, mode) received tags strictly increase; a delivered tag implies every earlier tag accepted in the same sender-side \
         open period was delivered; payloads byte-identical; nothing above the receiver's maximum delivered; sync send < 1 s and answers only ok/clogged/no-connection; async send never answers clogged. \
-        Non-trivial = a burst above 4096 while the receiver was stalled, or a clogged answer, or an oversize send on an open stream, or a close/cut after traffic with deliveries; distinct by case hash."
+        A third campaign sends bursts of 300..2500 notifications of 1000 B .. exactly the maximum to a reader that keeps reading (the sender exhausts the 256 KiB stream window mid-frame again and again), \
+        and slow consumers (15..200 us per notification) appear in all campaigns. Non-trivial = a burst above 4096 while the receiver was stalled, or a clogged answer, or an oversize send on an open stream, or a close/cut after traffic with deliveries, or more than 1 MiB delivered; distinct by case hash."
         .into();
     ctx.assumptions = vec![
         "thread and socket schedules are sampled, not owned".into(),
@@ -468,5 +528,6 @@ pub fn run(ctx: &mut Ctx) {
     ];
     let t = ctx.tier;
     ctx.campaign("scripts", CampaignCfg::new(t.pick(320, 6_000)).shards(16).shrink_iters(6), strategy, run_case);
+    ctx.campaign("window-cycles", CampaignCfg::new(t.pick(160, 3_000)).shards(16).shrink_iters(6), window_cycles_strategy, run_case);
     ctx.campaign("backpressure", CampaignCfg::new(t.pick(160, 3_000)).shards(16).shrink_iters(6), backpressure_strategy, run_case);
 }
